@@ -52,11 +52,46 @@ package soymsg
 
 // C08 / C09: building the placeholder string reads the message tree and writes
 // only into the caller's buffer (a bytes.Buffer, outside the model).
+// C10: what is fingerprinted is the message's raw text, its placeholder names
+// and its plural structure, every child in order, into the caller's buffer -
+// and never the description (no function on the id's path selects
+// MsgNode.Desc).
 //@ func writeFingerprint
-//@   props C08 C09
+//@   props C08 C09 C10
 //@   nosafety
 //@   noterm
 //@   pure
+//@   noreads[fingerprint-ignores-the-description;C10] ast.MsgNode.Desc
+//@   ghost visited int = 0
+//@   ghost nchildren int = -1
+//@   at call ast.ParentNode.Children#0 after set nchildren = len(res)
+//@   at call soymsg.writeFingerprint#0 assert[children-into-the-same-buffer-same-bracing;C10] arg0 == buf && arg2 == braces
+//@   at call soymsg.writeFingerprint#0 after set visited = visited + 1
+//@   at call (*bytes.Buffer).Write#0 assert[raw-text-verbatim;C10] arg0 == buf && sameslice(arg1, unbox(part, *ast.RawTextNode).Text)
+//@   at call (*bytes.Buffer).WriteString#1 assert[placeholder-by-its-name;C10] arg0 == buf && same(arg1, unbox(part, *ast.MsgPlaceholderNode).Name)
+//@   at call soymsg.writeFingerprint#1 assert[plural-case-bodies-braced;C10] arg0 == buf && arg2
+//@   at call soymsg.writeFingerprint#2 assert[plural-default-braced;C10] arg0 == buf && arg2
+//@   ensures[every-child-of-the-message-fingerprinted;C10] typeis(part, *ast.MsgNode) ==> visited == nchildren
+//@   loop 0
+//@     invariant[children-so-far;C10] visited == rangeindex + 1 && visited <= nchildren
+
+//@ func calcID
+//@   props C10
+//@   nosafety
+//@   modifies *
+//@   noreads[id-ignores-the-description;C10] ast.MsgNode.Desc
+//@   at call soymsg.writeFingerprint#0 assert[whole-message-unbraced;C10] typeis(arg1, *ast.MsgNode) && unbox(arg1, *ast.MsgNode) == n && !arg2
+//@   ensures[top-bit-cleared;C10] 0 <= result && result <= 9223372036854775807
+
+//@ func SetPlaceholdersAndID
+//@   props C10
+//@   modifies *
+//@   noreads[names-and-id-ignore-the-description;C10] ast.MsgNode.Desc
+//@   ghost gid uint64 = 0
+//@   at call soymsg.setPlaceholderNames#0 assert[names-for-this-message;C10] arg0 == n
+//@   at call soymsg.calcID#0 assert[id-of-this-message;C10] arg0 == n
+//@   at call soymsg.calcID#0 after set gid = res
+//@   ensures[id-stored;C10] n.ID == gid
 
 // C10 (also C08 / C09): the helpers of placeholder naming read the message
 // tree and build fresh strings and slices; they write nothing that exists.
